@@ -34,3 +34,11 @@ Theorem C11_unregistered_ignored : forall s g t it skip s' c ch, lstep s (LSubmi
   nth_error (chans s) c = Some ch -> registered ch = false -> nth_error (chans s') c = Some ch.
 Proof. exact unregistered_ignored. Qed.
 Print Assumptions C11_unregistered_ignored.
+
+(* ---- tie by translation (gen/SrcGomavlib.v regenerated from the source on every run) ---- the
+   queue length the transition system is proved for is the source's writeBufferSize *)
+From Coq Require Import ZArith.
+From GM Require Import SrcGomavlib SrcNodeTie.
+Theorem C11_source_queue_length : Z.of_nat Node.qcap = c_gomavlib_writeBufferSize.
+Proof. exact src_queue_length. Qed.
+Print Assumptions C11_source_queue_length.
